@@ -274,3 +274,43 @@ def rule_gtxn_attribution(ctx, rep):
                 bad.append((str(k), repr(got)))
         rep.check(not bad, rule, f"{name} == ZeroAddress", where, bad[:6], f"constrains exactly {sorted(map(str, constrained))}",
                   why="a check on one group member is credited to another (or lost)", sample={"read": name, "constrains": sorted(map(str, constrained))})
+
+
+GTXN_PROGRAMS = {
+    "own checks at a fixed own index say nothing about the other members": (
+        "#pragma version 6\ntxn GroupIndex\nint 0\n==\nassert\ntxn RekeyTo\nglobal ZeroAddress\n==\nassert\nint 1\nreturn\n"),
+    "own checks without an index check": "#pragma version 6\ntxn RekeyTo\nglobal ZeroAddress\n==\nassert\nint 1\nreturn\n",
+    "check of the member at absolute index 1 only": "#pragma version 6\ngtxn 1 RekeyTo\nglobal ZeroAddress\n==\nassert\nint 1\nreturn\n",
+    "check of the next member only": "#pragma version 6\ntxn GroupIndex\nint 1\n+\ngtxns RekeyTo\nglobal ZeroAddress\n==\nassert\nint 1\nreturn\n",
+    "own index 1 or a checked own field, on two branches": (
+        "#pragma version 6\ntxn GroupIndex\nint 1\n==\nbnz at1\ntxn RekeyTo\nglobal ZeroAddress\n==\nassert\nint 1\nreturn\nat1:\ngtxn 2 RekeyTo\nglobal ZeroAddress\n==\nassert\nint 1\nreturn\n"),
+    "check of member 1 in a subroutine called twice": (
+        "#pragma version 6\ncallsub c\ntxn Amount\nbz done\ncallsub c\ndone:\nint 1\nreturn\nc:\ngtxn 1 RekeyTo\nglobal ZeroAddress\n==\nassert\nretsub\n"),
+}
+
+
+def rule_gtxn_programs(ctx, rep):
+    rule = "T-FIXPOINT(gtxn programs)"
+    rep.rule(rule, "the address analysis with all its gtxn keys (absolute index, relative offset, 'this transaction at index i') evaluated on "
+                   "hand-written programs against the reference semantics: what is recorded about Gtxn[1], Gtxn[2], Gtxn[GroupIndex+-1] and about "
+                   "the own transaction at index 1 admits an arbitrary address whenever an accepting execution through the block carries one there "
+                   "- checks the contract makes on its own transaction, or on another member, are not credited to third members")
+    from .. import thorough
+    env = thorough.gtxn_env(ctx)
+    where = ctx.path("tealer.analyses.dataflow.transaction_context.generic")
+    n = 0
+    for name, src in GTXN_PROGRAMS.items():
+        try:
+            bad = thorough.gtxn_compare(ctx, env, name, src)
+        except PyRaise as e:
+            rep.violation(rule, f"{name}: runs", where, f"RAISES {e.exc} {e.where}", "completes")
+            continue
+        except (RuntimeError, ValueError) as e:
+            raise Unsupported(f"{rule}: {name}: {e}")
+        n += 1
+        if bad:
+            rep.violation(rule, name, where, {"program": src, "disagreements": [f"{what}: got {got!r}, reference {want!r}"[:170] for _, _, what, got, want in bad[:6]]},
+                          "no disagreement with the reference semantics", "information about another group member excludes a value that an accepted group carries")
+        else:
+            rep.ok(rule, {"program": name})
+    rep.require(n >= 5, f"only {n} programs")
